@@ -225,14 +225,32 @@ def dissimilar(case):
                    for j in range(i + 1, len(vals)))
 
 
-def renames_nonempty_dir(m_base, ops):
-    m = tm.clone(m_base)
-    for op in ops:
-        if op[0] == "rename" and m[op[1]]["kind"] == "directory" and any(
-                m[d]["kind"] != "directory" for d in tm.descendants(m, op[1])):
-            return True
-        tm.apply_op(m, op)
-    return False
+def _dirs_with_content(pl):
+    """{directory path: {relative leaf path: value}} of a leaves map"""
+    out = {}
+    for p, v in pl.items():
+        parts = p.split("/")
+        for i in range(1, len(parts)):
+            d = "/".join(parts[:i])
+            out.setdefault(d, {})["/".join(parts[i:])] = v
+    return out
+
+
+def dir_renamed(m_base, m_other):
+    """A (non-empty) directory of BASE is gone in OTHER and a directory with
+    exactly its content is new in OTHER: git reads this as a tree rename."""
+    db, do_ = _dirs_with_content(leaves(m_base)), \
+        _dirs_with_content(leaves(m_other))
+    gone = [d for d in sorted(db) if d not in do_]
+    new = [d for d in sorted(do_) if d not in db]
+    return any(db[g] == do_[n] for g in gone for n in new)
+
+
+def leaf_dir_swap(m_base, m_other):
+    """A file / symlink path of one tree is a directory in the other."""
+    pb, po = leaves(m_base), leaves(m_other)
+    db, do_ = _dirs_with_content(pb), _dirs_with_content(po)
+    return any(p in do_ for p in pb) or any(p in db for p in po)
 
 
 def symlink_loop(model):
@@ -356,7 +374,9 @@ def diff(a, b):
 
 def run(case, env):
     from breezy import merge as _merge
+    from breezy import transform as _transform
     from breezy import workingtree as _wt
+    from dromedary import errors as _dromedary_errors
     fam = case["family"]
     git = case["fmt"] == "git"
     mt = case["mtype"]
@@ -421,17 +441,20 @@ def run(case, env):
                 replay(replay(m_base, case["dt"]), case["do"]), git)
     # ---- separately labelled input classes behind open findings
     cls = None
-    if symlink_loop(m_base) or symlink_loop(m_this) or symlink_loop(m_other):
-        cls = "symlink-loop"
+    loops = (symlink_loop(m_base) or symlink_loop(m_this) or
+             symlink_loop(m_other))
+    if git and leaf_dir_swap(m_base, m_other):
+        cls = "git-file-replaced-by-directory"
     elif git and fam == "disjoint" and cross_pairable(m_this, m_other):
         cls = "git-similar-files-paired-across-sides"
+    elif git and fam == "identical" and dir_renamed(m_base, m_other):
+        cls = "git-directory-renamed-on-both-sides"
     elif git and rename_plus_reuse(m_base, m_other):
         cls = "git-renamed-file-path-reused"
-    elif git and fam == "identical" and renames_nonempty_dir(m_base,
-                                                             case["do"]):
-        cls = "git-directory-renamed-on-both-sides"
     elif git and not dissimilar(case):
         cls = "git-similar-contents"
+    elif loops:
+        cls = "symlink-loop"
     tag = fam.replace("=", "-eq-")
 
     def sig(what):
@@ -461,15 +484,23 @@ def run(case, env):
                 cooked = merger.do_merge()
                 if case["mode"] != "direct":
                     merger.set_pending()
+        wt = bz.open_tree(root)
+        after, disk, confl = tree_state(wt, git)
     except OSError as e:
         # the transform follows symlinks (os.stat / os.listdir): a looping
         # link makes the merge die with ELOOP; one class, one signature
-        if e.errno == errno.ELOOP and cls == "symlink-loop":
+        if e.errno == errno.ELOOP and loops:
             check(False, "C17/symlink-loop-crashes-merge",
                   {"case": case, "error": str(e)})
         raise
-    wt = bz.open_tree(root)
-    after, disk, confl = tree_state(wt, git)
+    except (_transform.TransformRenameFailed, _transform.MalformedTransform,
+            _dromedary_errors.NoSuchFile) as e:
+        # git: a file of THIS replaced by a directory in OTHER (or the
+        # reverse) breaks the transform in several places; one class
+        if cls == "git-file-replaced-by-directory":
+            check(False, "C17/git-file-replaced-by-directory-crashes-merge",
+                  {"case": case, "error": "%s: %s" % (type(e).__name__, e)})
+        raise
     detail = {"case": case, "conflicts": confl,
               "cooked": [str(c) for c in cooked]}
     check(not confl and not cooked, sig("reports-conflicts"),
